@@ -247,12 +247,24 @@ fn cli_block(ctx: &Ctx) {
         wd.write("p.bin", &pt);
         let mut lens = Vec::new();
         for (kr, from, to) in [("kr1.txt", 0usize, 1usize), ("kr2.txt", 2, 3)] {
-            let o = if i % 2 == 0 {
+            let o = if i % 4 == 2 {
+                // -o onto a path that already holds longer, identity-bearing content (a keyring copy)
+                let mut stale = std::fs::read(wd.file(kr)).unwrap_or_default();
+                while stale.len() < len + 132 + 32 * 4 + 500 {
+                    let again = stale.clone();
+                    stale.extend_from_slice(&again);
+                }
+                wd.write("c.ktl", &stale);
+                let mut o = Cmd::new(&wd.path, &["encrypt", "p.bin", "-t", &names[to], "-f", &names[from], "-k", kr, "-o", "c.ktl", "--env-pass"]).pass("pw").run();
+                o.stdout = std::fs::read(wd.file("c.ktl")).unwrap_or_default();
+                ctx.seen("cli: file left at an output path that held identity-bearing content");
+                o
+            } else if i % 2 == 0 {
                 Cmd::new(&wd.path, &["encrypt", "p.bin", "-t", &names[to], "-f", &names[from], "-k", kr, "--env-pass"]).pass("pw").run()
             } else {
                 Cmd::new(&wd.path, &["enc", "--to", &names[to], "--from", &names[from], "--env-pass"]).pass("pw").env("KESTREL_KEYRING", kr).stdin(Stdin::Bytes(pt.clone())).run()
             };
-            let case = || json!({"sender_name": names[from], "recipient_name": names[to], "len": len, "exit": o.exit.describe(), "stderr": o.stderr_s(), "wiring": if i % 2 == 0 { "file arg, -k" } else { "stdin, env keyring" }});
+            let case = || json!({"sender_name": names[from], "recipient_name": names[to], "len": len, "exit": o.exit.describe(), "stderr": o.stderr_s(), "wiring": if i % 4 == 2 { "file arg, -k, -o onto an existing longer file" } else if i % 2 == 0 { "file arg, -k" } else { "stdin, env keyring" }});
             if o.exit != Exit::Code(0) {
                 if o.exit == Exit::Timeout {
                     ctx.inconclusive("C08 cli: timeout");
@@ -315,6 +327,7 @@ pub fn run(ctx: &Ctx) {
     ctx.require("key mode: scan + length law + identity swap ok", 50);
     ctx.require("password mode: length law", 10);
     ctx.require("cli: scan + length law ok", 5);
+    ctx.require("cli: file left at an output path that held identity-bearing content", 2);
     ctx.require("history: clear ephemeral field fresh", 200);
     ctx.require("key mode with PrivateOnly ephemeral argument", 20);
     ctx.require("key mode with PublicOnly ephemeral argument", 20);
